@@ -1,7 +1,484 @@
-//! C47 — not built yet.
-use lv_common::Ctx;
+//! C47 — Bech32 addresses round-trip and reject wrong kinds.
+//!
+//! Oracle: a BIP-173 bech32 encoder/decoder written in this file (polymod, charset, strict 5->8 bit
+//! regrouping); the `bech32` crate is NOT used by the harness.
+//!   * display(a) == ref_encode(prefix(kind), id) and parse(display(a)) == a (all three kinds + the `Address` enum + JSON);
+//!   * for every adversarial string s: `s.parse::<K>()` is Ok(a') only if s is a bech32 (checksum constant 1)
+//!     string whose human readable part is K's prefix and whose data part is the canonical 5-bit regrouping
+//!     of exactly 20 bytes, and a'.id is those bytes.
+use std::str::FromStr;
 
-pub fn run(_ctx: &mut Ctx) {
-    eprintln!("C47: check not built yet");
-    std::process::exit(2);
+use celestia_types::state::{AccAddress, Address, AddressTrait, ConsAddress, ValAddress};
+use lv_common::prelude::*;
+
+const CHARSET: &[u8; 32] = b"qpzry9x8gf2tvdw0s3jn54khce6mua7l";
+const GEN: [u32; 5] = [0x3b6a57b2, 0x26508e6d, 0x1ea119fa, 0x3d4233dd, 0x2a1462b3];
+const BECH32_CONST: u32 = 1;
+const BECH32M_CONST: u32 = 0x2bc830a3;
+
+pub const PREFIXES: [&str; 3] = ["celestia", "celestiavaloper", "celestiavalcons"];
+
+fn polymod(values: impl Iterator<Item = u8>) -> u32 {
+    let mut chk: u32 = 1;
+    for v in values {
+        let top = chk >> 25;
+        chk = (chk & 0x1ffffff) << 5 ^ (v as u32);
+        for (i, g) in GEN.iter().enumerate() {
+            if (top >> i) & 1 == 1 {
+                chk ^= g;
+            }
+        }
+    }
+    chk
+}
+
+fn hrp_expand(hrp: &str) -> Vec<u8> {
+    let mut v: Vec<u8> = hrp.bytes().map(|b| b >> 5).collect();
+    v.push(0);
+    v.extend(hrp.bytes().map(|b| b & 31));
+    v
+}
+
+/// 8 -> 5 bit regrouping with zero padding
+pub fn to_5bit(data: &[u8]) -> Vec<u8> {
+    let mut acc: u32 = 0;
+    let mut bits = 0;
+    let mut out = Vec::new();
+    for b in data {
+        acc = (acc << 8) | *b as u32;
+        bits += 8;
+        while bits >= 5 {
+            bits -= 5;
+            out.push(((acc >> bits) & 31) as u8);
+        }
+    }
+    if bits > 0 {
+        out.push(((acc << (5 - bits)) & 31) as u8);
+    }
+    out
+}
+
+#[derive(Debug, PartialEq, Clone, Copy)]
+pub enum PadErr {
+    /// 5 or more left-over bits (a whole superfluous symbol)
+    TooMuch,
+    NonZero,
+}
+
+/// strict 5 -> 8 bit regrouping (BIP-173: incomplete group of at most 4 bits, all zero)
+pub fn from_5bit(sym: &[u8]) -> Result<Vec<u8>, PadErr> {
+    let mut acc: u32 = 0;
+    let mut bits = 0;
+    let mut out = Vec::new();
+    for s in sym {
+        acc = ((acc << 5) | *s as u32) & 0xfff;
+        bits += 5;
+        if bits >= 8 {
+            bits -= 8;
+            out.push((acc >> bits) as u8);
+        }
+    }
+    if bits >= 5 {
+        return Err(PadErr::TooMuch);
+    }
+    if acc & ((1 << bits) - 1) != 0 {
+        return Err(PadErr::NonZero);
+    }
+    Ok(out)
+}
+
+/// encode 5-bit symbols under `hrp` with checksum constant `konst`
+pub fn ref_encode_syms(hrp: &str, syms: &[u8], konst: u32) -> String {
+    let mut v = hrp_expand(hrp);
+    v.extend_from_slice(syms);
+    v.extend_from_slice(&[0; 6]);
+    let pm = polymod(v.into_iter()) ^ konst;
+    let mut s = String::from(hrp);
+    s.push('1');
+    for d in syms {
+        s.push(CHARSET[*d as usize] as char);
+    }
+    for i in 0..6 {
+        s.push(CHARSET[((pm >> (5 * (5 - i))) & 31) as usize] as char);
+    }
+    s
+}
+
+pub fn ref_encode(hrp: &str, data: &[u8]) -> String {
+    ref_encode_syms(hrp, &to_5bit(data), BECH32_CONST)
+}
+
+#[derive(Debug, PartialEq, Clone)]
+pub enum RefDecode {
+    /// valid bech32 string: (lower-cased hrp, payload bytes)
+    Ok(String, Vec<u8>),
+    NotBech32(&'static str),
+    /// the checksum verifies under the Bech32m constant, not the bech32 one
+    Bech32m,
+    BadChecksum,
+    Padding(PadErr),
+}
+
+pub fn ref_decode(s: &str) -> RefDecode {
+    if !s.is_ascii() {
+        return RefDecode::NotBech32("non-ascii");
+    }
+    let has_lower = s.bytes().any(|b| b.is_ascii_lowercase());
+    let has_upper = s.bytes().any(|b| b.is_ascii_uppercase());
+    if has_lower && has_upper {
+        return RefDecode::NotBech32("mixed case");
+    }
+    let s = s.to_ascii_lowercase();
+    let Some(sep) = s.rfind('1') else { return RefDecode::NotBech32("no separator") };
+    let (hrp, data) = (&s[..sep], &s[sep + 1..]);
+    if hrp.is_empty() || hrp.bytes().any(|b| !(33..=126).contains(&b)) {
+        return RefDecode::NotBech32("bad hrp");
+    }
+    if data.len() < 6 {
+        return RefDecode::NotBech32("data part shorter than the checksum");
+    }
+    let mut syms = Vec::with_capacity(data.len());
+    for c in data.bytes() {
+        match CHARSET.iter().position(|x| *x == c) {
+            Some(p) => syms.push(p as u8),
+            None => return RefDecode::NotBech32("character outside the charset"),
+        }
+    }
+    let mut v = hrp_expand(hrp);
+    v.extend_from_slice(&syms);
+    match polymod(v.into_iter()) {
+        BECH32_CONST => {}
+        BECH32M_CONST => return RefDecode::Bech32m,
+        _ => return RefDecode::BadChecksum,
+    }
+    match from_5bit(&syms[..syms.len() - 6]) {
+        Ok(bytes) => RefDecode::Ok(hrp.to_string(), bytes),
+        Err(e) => RefDecode::Padding(e),
+    }
+}
+
+#[derive(Clone, Debug, Serialize, Deserialize)]
+pub enum IdSpec {
+    Zeros,
+    Ones,
+    /// 0,1,2,..,19
+    Counting,
+    /// a single non-zero byte
+    OneByte(u8, u8),
+    Random([u8; 20]),
+}
+
+impl IdSpec {
+    fn bytes(&self) -> [u8; 20] {
+        match self {
+            IdSpec::Zeros => [0; 20],
+            IdSpec::Ones => [0xff; 20],
+            IdSpec::Counting => std::array::from_fn(|i| i as u8),
+            IdSpec::OneByte(p, v) => {
+                let mut b = [0u8; 20];
+                b[*p as usize % 20] = *v;
+                b
+            }
+            IdSpec::Random(b) => *b,
+        }
+    }
+}
+
+#[derive(Clone, Debug, Serialize, Deserialize)]
+pub struct Case {
+    pub id: IdSpec,
+    /// seed for the payloads of wrong-length strings and the foreign prefixes
+    pub seed: u64,
+    /// extra non-charset characters tried at every position
+    pub odd: Vec<u8>,
+}
+
+/// Parse `s` as every kind (and as the enum) and hold each acceptance against the reference decoder.
+/// Returns how many of the four parsers accepted.
+fn judge(obs: &mut Obs, s: &str, class: &str) -> Result<u32, Failure> {
+    let rd = ref_decode(s);
+    let results: [(usize, Option<[u8; 20]>); 3] = [
+        (0, AccAddress::from_str(s).ok().map(|a| a.as_bytes().try_into().unwrap())),
+        (1, ValAddress::from_str(s).ok().map(|a| a.as_bytes().try_into().unwrap())),
+        (2, ConsAddress::from_str(s).ok().map(|a| a.as_bytes().try_into().unwrap())),
+    ];
+    let any = Address::from_str(s).ok();
+    let mut accepted = 0;
+    let verdict = |obs: &mut Obs, who: &str, kind: usize, id: [u8; 20]| -> Result<(), Failure> {
+        let want_hrp = PREFIXES[kind];
+        match &rd {
+            RefDecode::Ok(hrp, bytes) if hrp == want_hrp && bytes[..] == id[..] => Ok(()),
+            RefDecode::Ok(hrp, bytes) if hrp != want_hrp => obs.fail(
+                "C47:other-prefix-accepted",
+                format!("[{class}] {s:?} parsed as {who} (prefix {want_hrp}) although its prefix is {hrp:?} ({} byte payload)", bytes.len()),
+            ),
+            RefDecode::Ok(_, bytes) => obs.fail(
+                "C47:wrong-length-or-id-accepted",
+                format!("[{class}] {s:?} parsed as {who} with id {id:02x?} although its payload is the {} bytes {bytes:02x?}", bytes.len()),
+            ),
+            RefDecode::Bech32m => obs.fail(
+                "C47:bech32m-checksum-accepted",
+                format!("[{class}] {s:?} parsed as {who} although its checksum is a Bech32m checksum (constant 0x2bc830a3), not a bech32 one"),
+            ),
+            RefDecode::Padding(e) => obs.fail(
+                "C47:noncanonical-padding-accepted",
+                format!("[{class}] {s:?} parsed as {who} (id {id:02x?}) although its data part is not the regrouping of whole bytes ({e:?}): it is not the bech32 encoding of a 20-byte id"),
+            ),
+            RefDecode::BadChecksum => obs.fail("C47:bad-checksum-accepted", format!("[{class}] {s:?} parsed as {who} although its checksum does not verify")),
+            RefDecode::NotBech32(why) => obs.fail("C47:non-bech32-accepted", format!("[{class}] {s:?} parsed as {who} although it is not a bech32 string ({why})")),
+        }
+    };
+    for (kind, r) in results {
+        if let Some(id) = r {
+            accepted += 1;
+            verdict(obs, ["AccAddress", "ValAddress", "ConsAddress"][kind], kind, id)?;
+        }
+    }
+    if let Some(a) = any {
+        accepted += 1;
+        let kind = match a {
+            Address::AccAddress(_) => 0,
+            Address::ValAddress(_) => 1,
+            Address::ConsAddress(_) => 2,
+        };
+        verdict(obs, "Address", kind, a.as_bytes().try_into().unwrap())?;
+    }
+    Ok(accepted)
+}
+
+fn adversarial(obs: &mut Obs, s: &str, class: &str, rejected_label: &str) -> Result<(), Failure> {
+    obs.eval(Some(digest_bytes(s.as_bytes())));
+    let n = judge(obs, s, class)?;
+    if n == 0 {
+        obs.label(rejected_label);
+    } else {
+        obs.label(&format!("{class}-accepted"));
+    }
+    Ok(())
+}
+
+fn check_kind<A>(obs: &mut Obs, kind: usize, id: [u8; 20], c: &Case) -> Result<(), Failure>
+where
+    A: AddressTrait + From<[u8; 20]> + PartialEq + std::fmt::Debug + Copy + Serialize + serde::de::DeserializeOwned + Into<Address>,
+    <A as FromStr>::Err: std::fmt::Display,
+{
+    let prefix = PREFIXES[kind];
+    let a = A::from(id);
+    let s = a.to_string();
+    let want = ref_encode(prefix, &id);
+    // ---- display / parse round trip
+    obs.eval(Some(digest_bytes(s.as_bytes())));
+    obs.label("display-parse-roundtrip");
+    obs.check(s == want, "C47:display-not-bech32", || format!("display of {prefix} id {id:02x?} is {s:?}, the bech32 encoding is {want:?}"))?;
+    obs.check(s.starts_with(&format!("{prefix}1")), "C47:display-prefix", || format!("{s:?} does not start with {prefix}1"))?;
+    obs.check(a.prefix() == prefix && a.as_bytes() == &id[..], "C47:accessors", || format!("prefix()/as_bytes() of {s} disagree"))?;
+    match A::from_str(&s) {
+        Ok(back) => obs.check(back == a, "C47:roundtrip", || format!("parse(display(a)) = {back:?} != {a:?}"))?,
+        Err(e) => obs.fail("C47:roundtrip", format!("parse(display(a)) failed for {s}: {e}"))?,
+    }
+    let as_enum: Address = a.into();
+    match Address::from_str(&s) {
+        Ok(back) => obs.check(back == as_enum && back.to_string() == s, "C47:roundtrip", || format!("Address::from_str({s}) = {back:?}, expected {as_enum:?}"))?,
+        Err(e) => obs.fail("C47:roundtrip", format!("Address::from_str({s}) failed: {e}"))?,
+    }
+    // JSON form
+    let js = serde_json::to_string(&a).map_err(|e| Failure::new("C47:roundtrip", format!("serialize failed: {e}")))?;
+    obs.check(js == format!("\"{s}\""), "C47:json-form", || format!("JSON form {js} is not the quoted display string"))?;
+    match serde_json::from_str::<A>(&js) {
+        Ok(back) => obs.check(back == a, "C47:roundtrip", || format!("JSON round trip of {s} gives {back:?}"))?,
+        Err(e) => obs.fail("C47:roundtrip", format!("JSON round trip of {s} failed: {e}"))?,
+    }
+    match serde_json::from_str::<Address>(&js) {
+        Ok(back) => obs.check(back == as_enum, "C47:roundtrip", || format!("JSON round trip of {s} through Address gives {back:?}"))?,
+        Err(e) => obs.fail("C47:roundtrip", format!("JSON round trip of {s} through Address failed: {e}"))?,
+    }
+    // the honest string is accepted by exactly its own kind and the enum
+    let n = judge(obs, &s, "honest")?;
+    obs.check(n == 2, "C47:other-prefix-accepted", || format!("{s} accepted by {n} of the 4 parsers, expected 2 (its kind and Address)"))?;
+
+    // ---- every single-character substitution
+    let chars: Vec<char> = s.chars().collect();
+    let mut subs: Vec<char> = CHARSET.iter().map(|b| *b as char).collect();
+    subs.extend(['1', 'b', 'i', 'o', 'Q', 'A', '-', ' ', '\u{e9}']);
+    subs.extend(c.odd.iter().map(|b| (*b % 128) as char));
+    for i in 0..chars.len() {
+        for &ch in &subs {
+            if ch == chars[i] {
+                continue;
+            }
+            let mut t = chars.clone();
+            t[i] = ch;
+            let t: String = t.into_iter().collect();
+            adversarial(obs, &t, "substitution", "substitution-rejected")?;
+        }
+    }
+    // ---- every deletion, every insertion of a charset symbol (and of '1')
+    for i in 0..chars.len() {
+        let mut t = chars.clone();
+        t.remove(i);
+        let t: String = t.into_iter().collect();
+        adversarial(obs, &t, "deletion", "deletion-rejected")?;
+    }
+    for i in 0..=chars.len() {
+        for &ch in subs.iter().take(33) {
+            let mut t = chars.clone();
+            t.insert(i, ch);
+            let t: String = t.into_iter().collect();
+            adversarial(obs, &t, "insertion", "insertion-rejected")?;
+        }
+    }
+    // adjacent transpositions
+    for i in 0..chars.len() - 1 {
+        if chars[i] != chars[i + 1] {
+            let mut t = chars.clone();
+            t.swap(i, i + 1);
+            let t: String = t.into_iter().collect();
+            adversarial(obs, &t, "transposition", "transposition-rejected")?;
+        }
+    }
+    // ---- case
+    let upper = s.to_ascii_uppercase();
+    obs.eval(Some(digest_bytes(upper.as_bytes())));
+    match A::from_str(&upper) {
+        // BIP-173 allows the all-uppercase form; when accepted it must denote the same address
+        Ok(back) => {
+            obs.label("uppercase-accepted");
+            obs.check(back == a, "C47:uppercase-other-address", || format!("{upper} parsed to {back:?}, expected {a:?}"))?;
+        }
+        Err(_) => obs.label("uppercase-rejected"),
+    }
+    judge(obs, &upper, "uppercase")?;
+    for i in 0..chars.len() {
+        if chars[i].is_ascii_lowercase() {
+            let mut t = chars.clone();
+            t[i] = t[i].to_ascii_uppercase();
+            let t: String = t.into_iter().collect();
+            adversarial(obs, &t, "mixed-case", "mixed-case-rejected")?;
+        }
+    }
+    // ---- other prefixes with a correct checksum
+    let mut rng = lv_common::Prng::new(c.seed);
+    let foreign = ["cosmos", "celesti", "celestiaa", "celestiavaloperr", "celestiavalcon", "celestiaval", "c", "celestia1", "valoper"];
+    for p in PREFIXES.iter().chain(foreign.iter()) {
+        if *p == prefix {
+            continue;
+        }
+        let t = ref_encode(p, &id);
+        obs.eval(Some(digest_bytes(t.as_bytes())));
+        match A::from_str(&t) {
+            Ok(x) => obs.fail("C47:other-prefix-accepted", format!("{t} (prefix {p}) parsed as a {prefix} address {x:?}"))?,
+            Err(_) => obs.label("other-kind-prefix-rejected"),
+        }
+        let n = judge(obs, &t, "other-prefix")?;
+        let own = PREFIXES.contains(p);
+        obs.check(n == if own { 2 } else { 0 }, "C47:other-prefix-accepted", || format!("{t}: accepted by {n} parsers, expected {}", if own { 2 } else { 0 }))?;
+    }
+    // ---- wrong payload lengths with a correct checksum
+    for len in [0usize, 1, 19, 21, 32, 33, 40] {
+        let mut payload = rng.bytes(len);
+        let l = len.min(20);
+        payload[..l].copy_from_slice(&id[..l]);
+        let t = ref_encode(prefix, &payload);
+        adversarial(obs, &t, "wrong-length", "wrong-length-rejected")?;
+    }
+    // ---- the same payload under the Bech32m checksum constant
+    let m = ref_encode_syms(prefix, &to_5bit(&id), BECH32M_CONST);
+    adversarial(obs, &m, "bech32m-variant", "bech32m-variant-rejected")?;
+    // ---- non-canonical data parts with a correct bech32 checksum: superfluous symbols after the 32 that carry the id
+    let syms = to_5bit(&id);
+    for extra in [0u8, 1, 16, 31, (rng.below(32)) as u8] {
+        let mut v = syms.clone();
+        v.push(extra);
+        let t = ref_encode_syms(prefix, &v, BECH32_CONST);
+        adversarial(obs, &t, "superfluous-symbol", "superfluous-symbol-rejected")?;
+    }
+    // 19 bytes + non-zero padding bits, 20 bytes + 2 symbols
+    {
+        let mut v = to_5bit(&id[..19]);
+        *v.last_mut().unwrap() |= 1;
+        adversarial(obs, &ref_encode_syms(prefix, &v, BECH32_CONST), "nonzero-padding", "nonzero-padding-rejected")?;
+        let mut v = syms.clone();
+        v.extend_from_slice(&[0, 0]);
+        adversarial(obs, &ref_encode_syms(prefix, &v, BECH32_CONST), "wrong-length", "wrong-length-rejected")?;
+    }
+    // ---- garbage
+    for t in ["", "1", prefix, &format!("{prefix}1"), &s[..s.len() - 6], &format!("{s} "), &format!(" {s}"), &format!("{s}\n")] {
+        adversarial(obs, t, "garbage", "garbage-rejected")?;
+    }
+    Ok(())
+}
+
+pub fn run(ctx: &mut Ctx) {
+    ctx.assume("reference bech32 (BIP-173 polymod/charset/regrouping) is written in the harness; the kind prefixes celestia / celestiavaloper / celestiavalcons are taken from the Cosmos SDK configuration of celestia-app");
+    ctx.assume("BIP-173's all-uppercase form is a bech32 encoding of the same address and may be accepted; mixed case is not bech32");
+    ctx.essential(&[
+        "display-parse-roundtrip",
+        "substitution-rejected",
+        "deletion-rejected",
+        "insertion-rejected",
+        "mixed-case-rejected",
+        "other-kind-prefix-rejected",
+        "wrong-length-rejected",
+        "bech32m-variant-rejected",
+        "superfluous-symbol-rejected",
+    ]);
+    // self-test of the reference codec on the BIP-173 vectors
+    ctx.enumerate(
+        "reference-self-test",
+        "the harness' bech32 reference reproduces BIP-173 test vectors (valid, invalid checksum, bech32m)",
+        false,
+        vec![0u8],
+        |_, obs| {
+            obs.eval(None);
+            for v in ["A12UEL5L", "a12uel5l", "abcdef1qpzry9x8gf2tvdw0s3jn54khce6mua7lmqqqxw", "split1checkupstagehandshakeupstreamerranterredcaperred2y9e3w"] {
+                if !matches!(ref_decode(v), RefDecode::Ok(..) | RefDecode::Padding(_)) {
+                    return Err(Failure::new("gen", format!("reference decoder rejects the BIP-173 vector {v}: {:?}", ref_decode(v))));
+                }
+            }
+            for v in ["A1G7SGD8", "a12uel5m", "pzry9x0s0muk", "1pzry9x0s0muk", "x1b4n0q5v", "li1dgmt3", "A1LQFN3A"] {
+                if matches!(ref_decode(v), RefDecode::Ok(..)) {
+                    return Err(Failure::new("gen", format!("reference decoder accepts the invalid vector {v}")));
+                }
+            }
+            if ref_decode("a1lqfn3a") != RefDecode::Bech32m {
+                return Err(Failure::new("gen", "reference decoder does not recognise the BIP-350 vector a1lqfn3a as bech32m"));
+            }
+            // segwit v0 P2WPKH from BIP-173: witness program round trip through the regrouping
+            let prog: Vec<u8> = (0..20).map(|i| i * 7 + 1).collect();
+            if from_5bit(&to_5bit(&prog)).as_deref() != Ok(&prog[..]) {
+                return Err(Failure::new("gen", "5<->8 bit regrouping does not round trip"));
+            }
+            if ref_encode("celestia", &[0u8; 20]).len() != 8 + 1 + 32 + 6 {
+                return Err(Failure::new("gen", "unexpected reference string length"));
+            }
+            Ok(())
+        },
+    );
+    let cases = ctx.tier.pick(400, 3_000);
+    ctx.proptest(
+        "addresses",
+        "per generated 20-byte id (zeros, 0xff, counting, single byte, random) and each of the 3 kinds: display == reference bech32 encoding, parse/JSON round trips, and for the displayed string every single-character substitution (32 charset symbols + '1', 'b','i','o', upper case, '-', ' ', 'é', extra bytes), every deletion, every insertion (32 symbols + '1'), adjacent transpositions, upper/mixed case, 11 other prefixes with recomputed checksum, payloads of 0/1/19/21/22/32/33/40 bytes, the Bech32m checksum variant, superfluous/non-zero padding symbols with a valid checksum: a parser may accept only the canonical bech32 encoding of a 20-byte id under its own prefix. Non-trivial = every adversarial or honest string evaluated (distinct by string)",
+        cases,
+        || {
+            (
+                prop_oneof![
+                    1 => Just(IdSpec::Zeros),
+                    1 => Just(IdSpec::Ones),
+                    1 => Just(IdSpec::Counting),
+                    2 => (0u8..20, 1u8..=255).prop_map(|(p, v)| IdSpec::OneByte(p, v)),
+                    12 => any::<[u8; 20]>().prop_map(IdSpec::Random),
+                ],
+                any::<u64>(),
+                prop::collection::vec(any::<u8>(), 0..3),
+            )
+                .prop_map(|(id, seed, odd)| Case { id, seed, odd })
+        },
+        |c, obs| {
+            let id = c.id.bytes();
+            check_kind::<AccAddress>(obs, 0, id, c)?;
+            check_kind::<ValAddress>(obs, 1, id, c)?;
+            check_kind::<ConsAddress>(obs, 2, id, c)?;
+            Ok(())
+        },
+    );
 }
